@@ -34,7 +34,7 @@ def run_panel(job):
         for key in range(8):
             est, _ = hutchinson_diag_estimate(A, k=0, tol=0.002, max_iters=mi, rand="rademacher", key=key)
             stats["panel_calls"] += 1
-            if est.shape != true.shape or not np.allclose(est, true, rtol=1e-12, atol=0):
+            if est.shape != true.shape or not np.allclose(est, true, rtol=1e-12, atol=0):  # exact: d * z^2 = d
                 viol = {"what": "Rademacher Hutchinson estimate of a diagonal operator's main diagonal is not exact",
                         "key": key, "max_err": float(np.max(np.abs(est - true))) if est.shape == true.shape else None}
                 break
